@@ -1334,6 +1334,15 @@ impl Arena {
           return Ok(allocated);
         }
         Err(current) => {
+          // We could not unlink the node we marked (the predecessor changed meanwhile): take the
+          // mark back, otherwise the node stays in the list as removed and everybody waits on it.
+          let _ = next_node.compare_exchange(
+            removed_next,
+            next_node_val,
+            Ordering::AcqRel,
+            Ordering::Relaxed,
+          );
+
           let (node_size, _) = decode_segment_node(current);
           if node_size == REMOVED_SEGMENT_NODE {
             // the current node is marked as removed, wait other thread to make progress.
@@ -1458,6 +1467,15 @@ impl Arena {
           return Ok(allocated);
         }
         Err(current) => {
+          // We could not unlink the head we marked (the sentinel changed meanwhile): take the
+          // mark back, otherwise the node stays in the list as removed and everybody waits on it.
+          let _ = head.compare_exchange(
+            removed_head,
+            head_node_size_and_next_node_offset,
+            Ordering::AcqRel,
+            Ordering::Relaxed,
+          );
+
           let (node_size, _) = decode_segment_node(current);
           if node_size == REMOVED_SEGMENT_NODE {
             // The current head is removed from the list, wait other thread to make progress.
@@ -1541,6 +1559,15 @@ impl Arena {
           continue;
         }
         Err(current) => {
+          // We could not unlink the head we marked (the sentinel changed meanwhile): take the
+          // mark back, otherwise the node stays in the list as removed and everybody waits on it.
+          let _ = head.compare_exchange(
+            removed_head,
+            head_node_size_and_next_node_offset,
+            Ordering::AcqRel,
+            Ordering::Relaxed,
+          );
+
           let (node_size, _) = decode_segment_node(current);
           if node_size == REMOVED_SEGMENT_NODE {
             // The current head is removed from the list, wait other thread to make progress.
